@@ -79,7 +79,7 @@ def replay_case(o):
     op = ops().get(name[1])
     if op is None:
         return None
-    return {"prop": PROP, "kind": "op_check", "op": op.name, "api": op.kind, "inputs": i}
+    return {"prop": PROP, "kind": "op_check", "op": op.method, "api": op.kind, "inputs": i}
 
 
 def search_cases(o, seed):
